@@ -963,36 +963,35 @@ func (c *BytecodeCompiler) CompileMacroBody(node *ast.MacroDefinitionNode, name 
 
 // Entry point for compiling the body of a macro.
 func (c *BytecodeCompiler) compileMacroBody(location *position.Location, parameters []ast.ParameterNode, body []ast.StatementNode) {
+	// parameters live in the first slots of the frame,
+	// they have to be defined before any other local
+	for _, param := range parameters {
+		p := param.(*ast.FormalParameterNode)
+		pSpan := p.Location()
+
+		pName := identifierToName(p.Name)
+		local := c.defineLocal(pName, pSpan)
+		if local == nil {
+			return
+		}
+		c.predefinedLocals++
+
+		if p.Initialiser != nil {
+			c.bytecode.IncrementOptionalParameterCount()
+
+			c.emitGetLocal(location.StartPos.Line, local.index)
+			jump := c.emitJump(pSpan.StartPos.Line, bytecode.JUMP_UNLESS_UNDEF)
+
+			c.compileNode(p.Initialiser, false)
+			c.emitSetLocalPop(pSpan.StartPos.Line, local.index)
+
+			c.patchJump(jump, pSpan)
+		}
+	}
+	c.bytecode.SetParameterCount(len(parameters))
+
 	c.compileWithDefer(
 		func() {
-			paramCount := len(parameters)
-
-			for _, param := range parameters {
-				p := param.(*ast.FormalParameterNode)
-				pSpan := p.Location()
-
-				pName := identifierToName(p.Name)
-				local := c.defineLocal(pName, pSpan)
-				if local == nil {
-					return
-				}
-				c.predefinedLocals++
-
-				if p.Initialiser != nil {
-					c.bytecode.IncrementOptionalParameterCount()
-
-					c.emitGetLocal(location.StartPos.Line, local.index)
-					jump := c.emitJump(pSpan.StartPos.Line, bytecode.JUMP_UNLESS_UNDEF)
-
-					c.compileNode(p.Initialiser, false)
-					c.emitSetLocalPop(pSpan.StartPos.Line, local.index)
-
-					c.patchJump(jump, pSpan)
-				}
-			}
-
-			c.bytecode.SetParameterCount(paramCount)
-
 			c.compileStatements(body, location, false)
 		},
 		location,
@@ -1005,55 +1004,61 @@ func (c *BytecodeCompiler) compileMacroBody(location *position.Location, paramet
 
 // Entry point for compiling the body of a method.
 func (c *BytecodeCompiler) compileMethodBody(location *position.Location, parameters []ast.ParameterNode, body []ast.StatementNode) {
+	// parameters live in the first slots of the frame,
+	// they have to be defined before any other local
+	for _, param := range parameters {
+		p := param.(*ast.MethodParameterNode)
+		pSpan := p.Location()
+
+		pName := identifierToName(p.Name)
+		local := c.defineLocal(pName, pSpan)
+		if local == nil {
+			return
+		}
+		c.predefinedLocals++
+
+		if p.Initialiser != nil {
+			c.bytecode.IncrementOptionalParameterCount()
+
+			c.emitGetLocal(location.StartPos.Line, local.index)
+			jump := c.emitJump(pSpan.StartPos.Line, bytecode.JUMP_UNLESS_UNDEF)
+
+			c.compileNode(p.Initialiser, false)
+			c.emitSetLocalPop(pSpan.StartPos.Line, local.index)
+
+			c.patchJump(jump, pSpan)
+		}
+
+		if p.SetInstanceVariable {
+			c.emitGetLocal(location.StartPos.Line, local.index)
+			c.emitSetInstanceVariableNoPop(value.ToSymbol(pName), pSpan)
+			// pop the value after setting it
+			c.emit(pSpan.StartPos.Line, bytecode.POP)
+		}
+	}
+
+	paramCount := len(parameters)
+	var poolVar *bytecodeLocal
+	if c.isAsync && !c.isGenerator {
+		// the thread pool is passed as a hidden last argument
+		poolVar = c.defineLocal("_pool", location)
+		paramCount++
+		c.predefinedLocals++
+		c.bytecode.IncrementOptionalParameterCount()
+	}
+	c.bytecode.SetParameterCount(paramCount)
+
 	c.compileWithDefer(
 		func() {
-			for _, param := range parameters {
-				p := param.(*ast.MethodParameterNode)
-				pSpan := p.Location()
-
-				pName := identifierToName(p.Name)
-				local := c.defineLocal(pName, pSpan)
-				if local == nil {
-					return
-				}
-				c.predefinedLocals++
-
-				if p.Initialiser != nil {
-					c.bytecode.IncrementOptionalParameterCount()
-
-					c.emitGetLocal(location.StartPos.Line, local.index)
-					jump := c.emitJump(pSpan.StartPos.Line, bytecode.JUMP_UNLESS_UNDEF)
-
-					c.compileNode(p.Initialiser, false)
-					c.emitSetLocalPop(pSpan.StartPos.Line, local.index)
-
-					c.patchJump(jump, pSpan)
-				}
-
-				if p.SetInstanceVariable {
-					c.emitGetLocal(location.StartPos.Line, local.index)
-					c.emitSetInstanceVariableNoPop(value.ToSymbol(pName), pSpan)
-					// pop the value after setting it
-					c.emit(pSpan.StartPos.Line, bytecode.POP)
-				}
-			}
-
-			paramCount := len(parameters)
 			if c.isGenerator {
 				c.emit(location.StartPos.Line, bytecode.GENERATOR)
 				c.emit(location.EndPos.Line, bytecode.RETURN)
 				c.registerCatch(-1, -1, c.nextInstructionOffset(), false)
 			} else if c.isAsync {
-				poolVar := c.defineLocal("_pool", location)
-				paramCount++
-				c.predefinedLocals++
-				c.bytecode.IncrementOptionalParameterCount()
-
 				c.emitGetLocal(location.StartPos.Line, poolVar.index)
 				c.emit(location.StartPos.Line, bytecode.PROMISE)
 				c.emit(location.EndPos.Line, bytecode.RETURN)
 			}
-			c.bytecode.SetParameterCount(paramCount)
 
 			c.compileStatements(body, location, false)
 		},
